@@ -155,10 +155,23 @@ def harness(ctx, C, p):
     r0 = api.outcome(d.parse, raw)
     if not r0.ok:
         return "reject"
-    rb = api.outcome(d.build, r0.value)
+    hasptr = any(m[1].startswith("Pointer(") for m in ms)
+    if hasptr:
+        # building a Pointer member writes at its target, which may lie inside another member: the rebuilt bytes are
+        # then not an encoding of the value at all (overlap is the user's business).  Pointer members occupy no
+        # bytes of the sequence, so the canonical encoding is built by the same Struct without them.
+        twin = mk(C, "Struct('n'/Byte, %s%s)" % ("".join("%r/%s, " % (m[0], m[1]) for m in ms if not m[1].startswith("Pointer(")),
+                                                    "" if any(m[3] for m in ms) else "'t'/Byte"), {"SHARED": shared})
+        rb = api.outcome(twin.build, r0.value)
+    else:
+        rb = api.outcome(d.build, r0.value)
     if not rb.ok:
         return "unbuildable"
     data = rb.value                       # a canonical encoding (of a value parse can produce)
+    if hasptr and not any(m[3] for m in ms) and len(data) < len(raw):
+        data = data + raw[len(data):]     # bytes after the sequence, for pointer targets to land on
+    if hasptr and not api.outcome(dx.parse, data).ok:
+        return "pointer target outside the canonical encoding"
     rp = api.outcome(dx.parse, data)
     ctx.check("the canonical encoding parses", rp.ok)
     obj = rp.value
